@@ -6,7 +6,7 @@ Mirrors, rule by rule and including its present defects,
 * `brush-parser/src/pattern.rs` `pattern_to_regex_translator` (`parsePat`, `toRe`, `Re.render`:
   pattern text → regular-expression text),
 * `brush-core/src/patterns.rs` `to_regex_str` / `exactly_matches` and `brush-core/src/regex.rs`
-  `compile_regex` (anchors `^…$`, flags `(?ms)`, search-anywhere `is_match`): `lineMatch`,
+  `compile_regex` (anchors `^…$`, flags `(?s)`, search-anywhere `is_match`): `anchoredSearch`,
 * the per-component filter of `Pattern::expand` (`globDir`),
 and gives the emitted regex subset an executable backtracking semantics (`Re.run`: from a subject
 suffix to the priority-ordered list of remainders).
@@ -344,19 +344,15 @@ def Re.run (nc : Bool) : Re → Str → List Str
 /-- the regex matches the whole of `s` -/
 def Re.full (nc : Bool) (re : Re) (s : Str) : Bool := (re.run nc s).any (·.isEmpty)
 
-def atLineEnd : Str → Bool
-  | [] => true
-  | c :: _ => c = '\n'
+/-- `(?s)^re$` searched anywhere in the subject (`fancy_regex::Regex::is_match`): the search tries
+every start offset, but `^` holds only at offset 0 (`atStart`) and `$` only at the very end of the
+subject (no `m` flag since the repair of `compile_regex`; `s` keeps `.` matching newlines). -/
+def anchoredSearch (nc : Bool) (re : Re) : Bool → Str → Bool
+  | atStart, [] => atStart && (re.run nc []).any (·.isEmpty)
+  | atStart, c :: t => (atStart && (re.run nc (c :: t)).any (·.isEmpty)) || anchoredSearch nc re false t
 
-/-- `(?ms)^re$` searched anywhere in the subject (`fancy_regex::Regex::is_match`): a match may
-start at the beginning of any line and end at the end of any line. `prevNl` = the position is a
-line start. -/
-def lineSearch (nc : Bool) (re : Re) : Bool → Str → Bool
-  | prevNl, [] => prevNl && (re.run nc []).any atLineEnd
-  | prevNl, c :: t => (prevNl && (re.run nc (c :: t)).any atLineEnd) || lineSearch nc re (c = '\n') t
-
-/-- `Pattern::exactly_matches` as brush computes it today -/
-def exactlyMatches (ext nc : Bool) (p s : Str) : Bool := lineSearch nc (toRe (parsePat ext p)) true s
+/-- `Pattern::exactly_matches` as brush computes it -/
+def exactlyMatches (ext nc : Bool) (p s : Str) : Bool := anchoredSearch nc (toRe (parsePat ext p)) true s
 
 /-! ### what the model's regex semantics does not cover (passed through to the regex crate verbatim) -/
 
